@@ -1,5 +1,6 @@
 """C01 - FileSet.find returns exactly the files that overlap the requested period.
 (engine shared with C16: props/fsfind.py)"""
+import copy
 import os
 import shutil
 import warnings
@@ -57,7 +58,8 @@ REQUIRED_PROBES = ["file_crosses_directory_boundary", "query_end_on_file_start",
                    "exclude_name", "filter_white", "filter_black", "bundle_int",
                    "bundle_freq", "listing_permuted", "backend_zip", "backend_local",
                    "created_after_first_query", "duplicate_start_times",
-                   "excludes_cleared", "filter_two_placeholders"]
+                   "excludes_cleared", "filter_two_placeholders",
+                   "generators_interleaved"]
 
 
 def setup():
@@ -89,6 +91,15 @@ def gen_workload(tape):
             o["bundle"] = tape.pick([None, None, None, 1, 2, 5, "1h", "6h", "1D"], "bundle")
             o["filters"] = gen_filters(tape, t.get("mode_in_name")) if F.uses_sat(t) else None
             o["no_files_error"] = tape.flag("nfe", 1, 2)
+            o["twice"] = tape.flag("twice", 1, 3)
+            # sometimes two unsorted searches are consumed alternately (each
+            # find() is a generator with its own state), optionally with a
+            # containment test in between
+            if tape.flag("interleave", 1, 6):
+                o["q2"] = gen_query(tape, "q2")
+                o["filters2"] = gen_filters(tape, t.get("mode_in_name")) \
+                    if F.uses_sat(t) and tape.flag("f2", 2, 3) else None
+                o["pattern"] = [tape.flag("il", 1, 2) for _ in range(12)]
         elif o["op"] == "contains":
             o["q"] = gen_query(tape, "c")
             o["as_period"] = tape.flag("cperiod", 1, 3)
@@ -164,8 +175,20 @@ def gen_filters(tape, two=False):
     return f or None
 
 
+INVALID_REGEX = "n1("      # filter values are regular expressions; this is none
+
+
+def invalid_filter(filters):
+    return bool(filters) and any(
+        INVALID_REGEX in (v if isinstance(v, list) else [v]) for v in filters.values())
+
+
 def _gen_filters1(tape):
-    c = tape.choice(6, "filt")
+    c = tape.choice(7, "filt")
+    if c == 6:
+        # a user error: the call has to fail (or find nothing) every time it
+        # is made - it must not leave state behind that answers the repetition
+        return {"sat": INVALID_REGEX}
     if c <= 1:
         return None
     if c == 2:
@@ -465,6 +488,9 @@ class Run:
                     f"{item} in fileset = {got}, expected {exp}; files "
                     f"{[(str(c[0]), str(c[1])) for c in covs[:6]]}"))
             return
+        if "q2" in o and not w["single"] and w["backend"] != "zip":
+            self.find_interleaved(o, covs)
+            return
         # ---- find -------------------------------------------------------------------
         start = resolve(q[0], covs, None)
         end = resolve(q[1], covs, None)
@@ -492,8 +518,31 @@ class Run:
                   filters=filters, no_files_error=o["no_files_error"])
         if w["single"]:
             kw["bundle"] = None
+        # the dict object handed to typhon is the caller's own; in a third of
+        # the filtered searches the caller repeats the call with the very same
+        # object (a filter definition used in a loop) and the repeated answer
+        # is the one that is judged
+        kw["filters"] = copy.deepcopy(filters)
+        if invalid_filter(filters):
+            self.probe("invalid_filter_repeated")
+            for rep in (1, 2):
+                try:
+                    got = list(self.fs.find(start, end, **kw))
+                except Exception:  # noqa: the expected outcome
+                    continue
+                if got:
+                    self.V.append(_viol(
+                        "C01/find/answer-for-invalid-filter",
+                        f"call {rep} of find({start}, {end}, filters={filters}) "
+                        f"returned {len(got)} file(s) although the filter is no "
+                        f"regular expression"))
+                    return
+            return
         try:
             got = list(self.fs.find(start, end, **kw))
+            if filters and o.get("twice"):
+                self.probe("same_filters_object_reused")
+                got = list(self.fs.find(start, end, **kw))
             raised = None
         except NoFilesError as e:
             got, raised = [], e
@@ -578,6 +627,69 @@ class Run:
                     break
 
 
+def _window(q, covs):
+    start = resolve(q[0], covs, None)
+    end = resolve(q[1], covs, None)
+    if start is not None and end is not None and end <= start:
+        start, end = end, start
+        if end <= start:
+            end = start + timedelta(seconds=1)
+    return start, end
+
+
+def _find_interleaved(self, o, covs):
+    """Two find(sort=False) generators of the same FileSet consumed alternately
+    (pattern from the tape): each must still give exactly its own answer."""
+    qs = [(o["q"], copy.deepcopy(o["filters"])), (o["q2"], copy.deepcopy(o["filters2"]))]
+    qs = [(q, None if invalid_filter(f) else f) for q, f in qs]
+    gens, exps, descs = [], [], []
+    for q, filters in qs:
+        start, end = _window(q, covs)
+        exps.append(self.expected(start if start is not None else datetime.min,
+                                  end if end is not None else datetime.max, filters))
+        descs.append(f"find({start}, {end}, sort=False, filters={filters})")
+        try:
+            gens.append(iter(self.fs.find(start, end, sort=False, filters=filters,
+                                          no_files_error=False)))
+        except Exception as e:  # noqa
+            self.V.append(_viol(f"C01/find-interleaved/exception/{type(e).__name__}",
+                                f"{descs[-1]}: {e}"[:300]))
+            return
+    got, alive, k = [[], []], [True, True], 0
+    self.probe("generators_interleaved")
+    try:
+        while any(alive):
+            i = 1 if o["pattern"][k % len(o["pattern"])] else 0
+            k += 1
+            if not alive[i]:
+                i = 1 - i
+            try:
+                got[i].append(next(gens[i]))
+            except StopIteration:
+                alive[i] = False
+    except Exception as e:  # noqa
+        self.V.append(_viol(f"C01/find-interleaved/exception/{type(e).__name__}",
+                            f"{descs}: {e}"[:300]))
+        return
+    self.queries += 2
+    for i in (0, 1):
+        gp = sorted(F.fi_key(x) for x in got[i])
+        ep = sorted(f["path"] for f in exps[i])
+        if gp != ep:
+            missing = sorted(set(ep) - set(gp))
+            extra = sorted(set(gp) - set(ep))
+            cls = "missing" if missing else ("extra" if extra else "duplicates")
+            self.V.append(_viol(
+                f"C01/find-interleaved/{cls}",
+                f"{descs[i]} consumed alternately with {descs[1 - i]}: missing "
+                f"{[os.path.basename(p) for p in missing[:3]]} unexpected "
+                f"{[os.path.basename(p) for p in extra[:3]]}"))
+            return
+
+
+Run.find_interleaved = _find_interleaved
+
+
 def _dir_of(t, lim):
     if lim <= timedelta(hours=1):
         return (t.year, t.month, t.day, t.hour)
@@ -614,6 +726,8 @@ def run_one(tape, only=None):
     res["edigest"] = digest_of(run.answers)
     res["faults"] = {"listing_order_permuted": getattr(run.be.fs, "permuted", 0)} \
         if getattr(run.be.fs, "permuted", 0) else {}
+    if run.probes.get("invalid_filter_repeated"):
+        res["faults"]["call_failed_on_invalid_filter"] = run.probes["invalid_filter_repeated"]
     res["kinds"] = [f"backend={w['backend']}", f"dirs={'/'.join(F.DIRS[w['t']['dirs']]) or '-'}"]
     res["counters"] = {"queries": run.queries, "state_changes": run.changes,
                        "files": len(run.files)}
